@@ -416,7 +416,7 @@ def check(ctx):
             payload = ("field", ("downcast", pres, "Some"), "0")
             ok_sw = len(sw) == 1
             keyed = ok_sw and ex.deref_val(p, sw[0][3][1]) == payload
-            ok_ret = rv == "Some" and ret[0] == "adt" and ret[3][0] == payload
+            ok_ret = rv == "Some" and ((ret[0] == "adt" and ret[3][0] == payload) or ret == pres)      # Some(m) rebuilt, or the attempt's result handed on as it is
             ctx.ob("C06.c", "some-path-switches-once", ok_sw, "%d mode-switch call(s) on the Some path" % len(sw), ff.loc())
             ctx.ob("C06.c", "switch-keyed-by-returned-match", keyed,
                    "the match handed to execute_possible_mode_switch %s the one returned by the attempt" % ("is" if keyed else "is NOT"), ff.loc())
@@ -547,6 +547,14 @@ def check(ctx):
             ok = variant_of(ex, p, g[0][4]) == "None"
         elif ok:
             ok = S.mentions(rv, lambda x: x == g[0][4]) and ("name" in s)
+        elif not g:
+            # bounds test + indexing instead of get(): Some(name of scanner_modes[index]) exactly when index < len
+            from .common import ordering_of
+            oset = ordering_of(p.conds, lambda x: x == ("sym", "index"), lambda x: x[0] == "app" and re.search(r"(^|::)len$", str(x[1])) is not None and "self.scanner_modes" in S.fstr(x))
+            if rv[0] == "adt" and rv[2] == "None":
+                ok = oset <= {"E", "G"}
+            else:
+                ok = oset == {"L"} and rv[0] == "adt" and rv[2] == "Some" and re.search(r"self\.scanner_modes(\.|\[)index\]?\.name", s) is not None
         ctx.ob("C06.g", "mode_name-looks-up-index", ok, "returns %s" % s, mn.loc())
     # Scanner::set_mode only touches its own inner (C06.e: iterators own a clone)
     ss = F.fn(r"<scanner::Scanner as scanner::ScannerModeSwitcher>::set_mode$")
